@@ -26,6 +26,24 @@ def main(tier, seed, replay):
     ck = Check(prop, tier, seed)
     ck.coq_theorems()
     n = 240 if tier == "quick" else 2400
+    is_meta_replay = bool(replay) and '"impl"' in open(replay).read()[:4000]
+    # "whatever metastore calls failed ... or were lost": the real metastore implementations over their fakes, with one request in six
+    # failing inside the service: a Store whose write failed must never report success (the envelope code trusts that boolean)
+    if not replay or is_meta_replay:
+        mruns = [["-replay", replay]] if replay else [["-seed", str(seed + 13), "-n", "600" if tier == "quick" else "6000"]]
+        mcases = envcheck.run_harness(ck, "meta", mruns)
+        if mcases is None:
+            return ck.finish()
+        mbad = [c for c in mcases if any("reported success although" in v for v in c.get("viol") or [])]
+        ck.cov["metastore_store_under_service_faults"] = {"cases": len(mcases), "faulted_stores": sum(1 for c in mcases for o in c["ops"] if o.get("fault") and o["k"] == "store")}
+        ck.oblige(not mbad, "no metastore implementation reports a failed write as stored (%d op sequences with injected service failures)" % len(mcases), str(mbad[:1])[:2000])
+        if mbad:
+            ck.violation(ck.replay_file("meta", {"what": [v for v in mbad[0]["viol"] if "reported success" in v][:3] +
+                                                 ["the envelope code caches and returns a key whose Store reported success: records are then written under a key that is not in the metastore"],
+                                                 "Case": mbad[0]}))
+        if replay:
+            ck.cov.update({"evaluations": len(mcases), "distinct_nontrivial": len(mcases), "rule": "replay"})
+            return ck.finish()
     runs = [["-replay", replay]] if replay else RUNS[prop](seed, n)
     cases = envcheck.run_harness(ck, "env", runs)
     if cases is None:
